@@ -79,6 +79,7 @@ class Run(RunBase):
             self.faults["born-from-image"] += 1
         self.caller = Caller()
         self.refmemo = {}
+        self.arrmemo = {}
         self.nref = 0
         self.scribbled = False
         # C13 twin
@@ -289,8 +290,21 @@ class Run(RunBase):
             t.append((self.twin, self.twin_caller))
         return t
 
+    def input_arrays(self, calc, k):
+        """The scaled inputs for input k. In 'memo_inputs' worlds the caller computes them once per calculator
+        epoch and keeps them, so that later Lij calls are NOT preceded by tags2preene/preene2betafree calls on the
+        calculator (otherwise the harness's own input preparation would be part of every history)."""
+        if not self.w.get("memo_inputs"):
+            return self.pool.arrays(calc, k)
+        key = (0 if calc is self.calc else 1, k % len(self.pool))
+        if key not in self.arrmemo:
+            self.arrmemo[key] = self.pool.arrays(calc, k)
+        else:
+            self.probes["lij-without-preceding-input-conversion"] += 1
+        return [a.copy() for a in self.arrmemo[key]]
+
     def call_one(self, calc, caller, k, mode, via):
-        arrs = self.pool.arrays(calc, k)
+        arrs = self.input_arrays(calc, k)
         if via == "buffers":
             # the caller reuses ITS persistent input buffers: overwrites them in place with this input
             if caller.buffers is None or any(b.shape != a.shape for b, a in zip(caller.buffers, arrs)):
@@ -440,6 +454,7 @@ class Run(RunBase):
             self.probes["regen-same-range"] += 1
         else:
             self.faults["re-ranged-in-place"] += 1
+        self.arrmemo = {}
         for calc, _ in self.targets():
             calc.generate(N)
             calc.generatematrices()
@@ -454,7 +469,9 @@ class Run(RunBase):
         n = int(op["n"])
         if n not in self.w["grids"]:
             return "skip"
-        if n != self.NGF:
+        # a rebuild happens whenever the calculator's own NGFmax differs from n -- which it also does after the
+        # failing accessor call GFcalculator() reset it to 0 (DESIGN 6, O2); ask the calculators, not the model
+        if n != self.NGF or any(getattr(calc, "NGFmax", n) != n for calc, _ in self.targets()):
             self.faults["re-gridded-in-place"] += 1
             self.rebuilt = True
         for calc, _ in self.targets():
@@ -543,6 +560,7 @@ class Run(RunBase):
         name, N, NGF, gen = ent["groups"][op["group"] % len(ent["groups"])]
         # crash/restart: the in-memory calculator is gone; only the image survives
         self.calc = self.load_bytes(ent["data"], name, op["keep_open"])
+        self.arrmemo = {}
         self.N, self.NGF, self.gen = N, NGF, gen + 1
         self.faults["restart-from-image"] += 1
         if op["keep_open"]:
@@ -556,6 +574,7 @@ class Run(RunBase):
         name = self.save_calc(self.calc, op["slot"], op["mode"], op["libver"], op["driver"], self.N, self.NGF, 0)
         ent = self.disk[op["slot"]]
         self.twin = self.load_bytes(ent["data"], name, op["keep_open"])
+        self.arrmemo = {}
         self.twin_caller = Caller()
         # the copy's caller starts with copies of what the original's caller holds (same shapes, own memory)
         self.twin_caller.rets = [np.array(a, copy=True) for a in self.caller.rets]
@@ -573,6 +592,7 @@ class Run(RunBase):
             return "skip"
         name = self.save_calc(self.twin, op["slot"], "new", op["libver"], op["driver"], self.N, self.NGF, self.twin_gen)
         self.twin = self.load_bytes(self.disk[op["slot"]]["data"], name, op["keep_open"])
+        self.arrmemo = {}
         self.twin_gen += 1
         self.faults["image-of-image"] += 1
         self.compare_twin_observables("after refork")
@@ -879,6 +899,7 @@ class Engine(object):
         w = {"crystal": c, "ranges": ranges, "N": rng.choice(ranges), "grids": grids, "NGF": rng.choice(grids),
              "birth": rng.choice(("ctor", "image", "image")), "pool_seed": rng.randrange(1 << 30),
              "buffers": rng.random() < 0.5}
+        w["memo_inputs"] = rng.random() < 0.5
         w["class"] = "{}/N{}/G{}".format(c, "".join(map(str, ranges)), "".join(map(str, grids)))
         return w
 
